@@ -8,7 +8,15 @@
         ENABLED context or an UNSPECIFIED one and convert_by_default, through to_graph, or inside
         FunctionScope/with_function_scope with user_requested options, does run that way),
      - wrapped by internal_convert with a DISABLED context         reports DISABLED,
-   at every position (before the first child, after each child whether it returned or raised). *)
+   at every position (before the first child, after each child whether it returned or raised).
+   Stacked decorators (a wrapper applied to another wrapper's result, to an inner function handed out by
+   converted code or to a function marked with autograph_artifact -- `Wrap`):
+     - a call that enters no context (plain / artifact / convert() with NullCtx that does not convert /
+       FunctionScope without user_requested) reports the status of its call site,
+     - convert() with NullCtx called where the status is DISABLED does not run a user-requested conversion,
+     - directly under a do_not_convert (unspecified-status) wrapper the call-site status is DISABLED (UNSPECIFIED);
+   together (status_inside_stacked_do_not_convert): do_not_convert applied to an artifact or to a convert()
+   wrapper reports DISABLED inside. *)
 From Coq Require Import List Bool.
 Import ListNotations.
 Require Import MV.Ctx.CtxSyntax MV.Ctx.Stack MV.Ctx.StackSpec MV.Ctx.StackProofs MV.Generated.C16_gen.
@@ -21,10 +29,27 @@ Theorem status_inside : forall T, tables_ok T = true -> forall t st, tr st = [] 
     /\ (forall c cbd ur, ob_kind o = KInternal c cbd ur -> eff_status (ob_arg o) (ob_call_status o) = Disabled ->
           cst (ob_top o) = Disabled)
     /\ (user_converted (ob_kind o) (ob_dyn o) (ob_arg o) (ob_call_status o) -> cst (ob_top o) = Enabled)
-    /\ (ob_urconv o = true -> cst (ob_top o) = Enabled).
+    /\ (ob_urconv o = true -> cst (ob_top o) = Enabled)
+    /\ (enters_nothing (ob_kind o) (ob_urconv o) -> cst (ob_top o) = ob_call_status o)
+    /\ (forall ur rc, ob_kind o = KConvert ur rc MNull -> ob_call_status o = Disabled -> ob_urconv o = false)
+    /\ (forall pre l s, ob_outer o = pre ++ [l] -> layer_status l = Some s -> ob_call_status o = s).
 Proof.
-  intros T H t st Htr o Hin. destruct (status_inside_all T H t st Htr o Hin) as [A [B [C [D [_ [E F]]]]]].
+  intros T H t st Htr o Hin.
+  destruct (status_inside_all T H t st Htr o Hin) as [A [B [C [D [_ [E [F [G [I J]]]]]]]]].
   repeat split; auto.
+Qed.
+
+Theorem status_inside_stacked_do_not_convert : forall T, tables_ok T = true -> forall t st, tr st = [] ->
+  forall o pre, In o (trace (snd (exec T t st))) -> ob_outer o = pre ++ [KDoNotConvert] ->
+    (ob_kind o = KArtifact \/ ob_kind o = KPlain \/ exists ur rc, ob_kind o = KConvert ur rc MNull) ->
+    cst (ob_top o) = Disabled.
+Proof.
+  intros T H t st Htr o pre Hin Ho Hk.
+  destruct (status_inside T H t st Htr o Hin) as [_ [_ [_ [_ [_ [_ [G [I J]]]]]]]].
+  assert (Hcs : ob_call_status o = Disabled) by (eapply J; [exact Ho | reflexivity]).
+  rewrite <- Hcs. apply G.
+  destruct Hk as [E|[E|[ur [rc E]]]]; rewrite E; simpl; auto.
+  eapply I; eauto.
 Qed.
 
 Theorem status_inside_current_source : forall t o,
@@ -37,5 +62,12 @@ Proof.
   destruct (status_inside gen_tables H t (init_state gen_tables) eq_refl o Hin) as [A [_ [_ [_ [E _]]]]].
   split; assumption.
 Qed.
+(* non-vacuity: @do_not_convert stacked on @convert(): DISABLED inside, the function is not converted *)
+Example status_inside_stacked_nonvacuous :
+  let t := Wrap KDoNotConvert (Node 1 (KConvert true true MNull) false false None []) in
+  map (fun o => (cst (ob_top o), ob_urconv o, ob_outer o)) (trace (snd (exec gen_tables t (init_state gen_tables))))
+  = [(Disabled, false, [KDoNotConvert])].
+Proof. vm_compute. reflexivity. Qed.
 Print Assumptions status_inside.
+Print Assumptions status_inside_stacked_do_not_convert.
 Print Assumptions status_inside_current_source.
